@@ -236,6 +236,8 @@ def minimise(job, target, sim_dir, repo, budget=60, wall_budget=150.0):
             out.append(("ops=0", dict(c, ops=0)))
         if c.get("warm"):
             out.append(("warm=0", dict(c, warm=0)))
+        if c.get("clockq"):
+            out.append(("fine clock", dict(c, clockq=0)))
         if c.get("gens", 1) > 1:
             out.append((f"gens={c['gens'] - 1}", dict(c, gens=c["gens"] - 1)))
         nthreads = c["K"] + (1 if c["main"] else 0)
@@ -285,7 +287,7 @@ def write_replay(job, v, run, steps, tries, original_job, repo):
     path = os.path.join(REPLAYS, f"{PROP}-{v['class']}-{job['miri_seed']}.json")
     trace, total = trace_of(run, v) if run else ([], 0)
     doc = {"property": PROP, "class": v["class"], "key": v["key"], "detail": v["detail"],
-           "miri_seed": job["miri_seed"], "miriflags": runner.miriflags(job["miri_seed"], job["preempt"], job.get("extra_flags", ())),
+           "miri_seed": job["miri_seed"], "miriflags": runner.flags_of(job), "sysroot": "patched-clock" if runner.SYSROOT else "stock",
            "argv": runner.argv_of(job), "job": dict({k: job[k] for k in job if k not in ("id",)}, hang=runner.hang_limit(job)),
            "found_by": {k: original_job[k] for k in original_job if k not in ("id",)},
            "minimisation": {"accepted_steps": steps, "candidate_runs": tries},
@@ -316,6 +318,16 @@ def is_known(v, known):
 
 # ------------------------------------------------------------------ tier
 
+def sysroot_note(jobs=None):
+    """Make the patched-clock sysroot available (built once, ~25 s); without it the runs use the stock
+    sysroot and coarse-clock runs lose their quantum (reported, never a verdict)."""
+    sr, err = runner.ensure_sysroot()
+    if not sr:
+        n = sum(1 for j in (jobs or []) if j.get("clockq"))
+        log(f"NOTE: patched-clock sysroot unavailable ({err or 'build failed'}); using the stock Miri sysroot, {n} coarse-clock runs run with the fine clock")
+    return sr
+
+
 def run_tier(tier, seed, sim_dir=SIM_DIR, repo=REPO, write_evidence=True, jobs=None, quiet=False):
     t0 = time.time()
     jobs = jobs if jobs is not None else plan.make_plan(seed, tier)
@@ -326,6 +338,7 @@ def run_tier(tier, seed, sim_dir=SIM_DIR, repo=REPO, write_evidence=True, jobs=N
     audit = seam_audit(repo)
     for n in audit["notes"]:
         log("NOTE: " + n)
+    sysroot_note(jobs)
     try:
         bt = runner.build(sim_dir)
     except (HarnessError, subprocess.TimeoutExpired) as e:
@@ -447,6 +460,7 @@ def write_evidence_file(tier, seed, jobs, recs, audit, wall, reported, stopped, 
             "fault_kinds_fired": {
                 "entropy_seedings(one per thread that drew)": sum(runner.nthreads(r["job"]) + (1 if r["job"].get("warm") else 0) for r in ok),
                 "runs_with_main_thread_warm_up_before_workers": sum(1 for r in ok if r["job"].get("warm")),
+                "runs_with_coarse_clock(Instant quantised to 1ms..1s)": sum(1 for r in ok if r["job"].get("clockq")) if runner.SYSROOT else 0,
                 "runs_with_successive_thread_generations": sum(1 for r in ok if r["job"].get("gens", 1) > 1),
                 "threads_started_after_an_earlier_thread_exited": sum(r["job"]["K"] * (r["job"].get("gens", 1) - 1) for r in ok),
                 "preemption_inside_random_call": pre,
@@ -470,6 +484,7 @@ def write_evidence_file(tier, seed, jobs, recs, audit, wall, reported, stopped, 
             "seam_audit": audit,
             "components": {"real_code": ["volute (working tree of /repo)", "rand 0.8", "rand_chacha", "rand_core", "getrandom", "ppv-lite86", "std (threads, TLS, allocator)"],
                            "simulated_by_miri": ["OS entropy (getrandom)", "thread scheduler + preemption", "weak memory / spurious CAS failure", "clock", "heap addresses", "short stdout writes"],
+                           "patched": (["std::time::Instant::now and SystemTime::now in the simulator's sysroot only (tools/build_sysroot.py): virtual clock, optionally quantised"] if runner.SYSROOT else []),
                            "stubs": []},
             "miri": {"version": miri_v, "base_flags": runner.BASE_FLAGS, "preemption_rates": plan.PREEMPT},
             "false_alarm_bound_per_check_log2": -oracles.FA_LOG2,
@@ -504,12 +519,13 @@ def replay(path):
     dig = runner.repo_digest(REPO)
     if dig != doc.get("repo_src_digest"):
         log(f"note: /repo sources differ from the tree the replay file was recorded on ({doc.get('repo_src_digest')} -> {dig})")
+    sysroot_note()
     try:
         runner.build(SIM_DIR)
     except (HarnessError, subprocess.TimeoutExpired) as e:
         log(f"HARNESS-ERROR: {e}")
         return 2
-    log(f"replaying argv={' '.join(runner.argv_of(job))} MIRIFLAGS={' '.join(runner.miriflags(job['miri_seed'], job['preempt'], job.get('extra_flags', ())))}")
+    log(f"replaying argv={' '.join(runner.argv_of(job))} MIRIFLAGS={' '.join(runner.flags_of(job))}")
     res = runner.run_job(job)
     rec = evaluate(job, res)
     if rec["status"] in ("harness", "timeout"):
@@ -557,6 +573,7 @@ def main(argv):
         return replay(argv[2])
     if argv and argv[0] == "determinism":
         n = int(argv[1]) if len(argv) > 1 else 32
+        sysroot_note()
         try:
             runner.build(SIM_DIR)
         except HarnessError as e:
@@ -565,6 +582,15 @@ def main(argv):
         r = determinism(n, seed)
         log(json.dumps(r))
         return 0 if not r["mismatches"] and not r["not_ok"] else 2
+    if argv and argv[0] == "setup":
+        sr = sysroot_note()
+        try:
+            bt = runner.build(SIM_DIR)
+        except (HarnessError, subprocess.TimeoutExpired) as e:
+            log(f"HARNESS-ERROR: {e}")
+            return 2
+        log(f"setup: sysroot={'patched-clock ' + sr if sr else 'stock'}; harness built in {bt:.1f}s")
+        return 0
     if argv and argv[0] == "selftest":
         from . import selftest
         return selftest.main(argv[1:], seed)
